@@ -218,6 +218,7 @@ class Interp:
         self.stats = {'calls': 0, 'forks': 0, 'loops': 0, 'stmts': 0}
         self._switch_cache = {}
         self.atom_range = {}
+        self.unroll = 1
 
     # ------------------------------------------------------------------ types
     def itype(self, node_or_type):
@@ -563,6 +564,18 @@ class Interp:
         exits = []
         back, ex0 = one_pass(st)
         exits.extend(ex0)
+        # optional exact unrolling of further iterations (used for exhaustive small-state enumeration)
+        peeled = 1
+        while back and peeled < self.unroll:
+            peeled += 1
+            nb = []
+            for b in back:
+                b2, e2 = one_pass(b)
+                nb.extend(b2)
+                exits.extend(e2)
+            back = nb
+            if len(back) > 256:
+                break
         if not back:
             return exits
         # steady-state heads, kept apart by what the path has decided about access modes
